@@ -271,6 +271,18 @@ def check_diagram(spec, left, interp_spec, labels):
     left_over = removable_snakes(nf)
     require(not left_over, "C07:snake-left-in-normal-form",
             lambda: "{} -> {} still has {}".format(d, nf, left_over))
+    # the other flag on the same diagram: the answer is that of this call
+    try:
+        other_last, _, other_rep = run_normalisation(d, spec, not left, interp)
+        other = specs.build(spec).normal_form(left=not left)
+    except NotImplementedError:
+        other = None
+    if other is not None and not other_rep:
+        require(other == other_last
+                and specs.dkey(other) == specs.dkey(other_last),
+                "C07:normal-form-depends-on-earlier-calls",
+                lambda: "{} with left={}: {} vs {}".format(
+                    d, not left, other, other_last))
     removed = kinds.count("removal")
     obstructed = removed and kinds.count("interchange") > 0
     return dict(nt=bool(obstructed), labels=labels + [
